@@ -19,7 +19,36 @@ import (
 // pre-allocated buffers.  Results must not depend on it.
 var reuseBufs = map[string][]byte{}
 
+// every input slice handed to the library in the current call, with its contents at hand-over: the library must not write
+// into its inputs (checkInputs reports the names of those it changed)
+type handedIn struct {
+	name string
+	buf  []byte
+	orig string
+}
+
+var handed []handedIn
+
+func checkInputs(out map[string]interface{}) {
+	m := []string{}
+	for _, h := range handed {
+		if hx(h.buf) != h.orig {
+			m = append(m, h.name)
+		}
+	}
+	handed = nil
+	if len(m) > 0 {
+		out["mutated_inputs"] = m
+	}
+}
+
 func exact(in map[string]interface{}, k string) []byte {
+	r := exact0(in, k)
+	handed = append(handed, handedIn{k, r, hx(r)})
+	return r
+}
+
+func exact0(in map[string]interface{}, k string) []byte {
 	b := unhex(in, k)
 	if v, ok := in["reuse"].(bool); ok && v {
 		key := fmt.Sprintf("%s/%d", k, len(b))
@@ -36,25 +65,39 @@ func exact(in map[string]interface{}, k string) []byte {
 	return r
 }
 
+// output buffers: zero filled, or filled with 0xa5 when the case says "dirty_out" (a caller that reuses its key buffers):
+// what the library writes must not depend on what the buffer held
+func outbuf(in map[string]interface{}, n int) []byte {
+	b := make([]byte, n)
+	if v, ok := in["dirty_out"].(bool); ok && v {
+		for i := range b {
+			b[i] = 0xa5
+		}
+	}
+	return b
+}
+
 func milF1(in map[string]interface{}) map[string]interface{} {
-	macA, macS := make([]byte, 8), make([]byte, 8)
+	macA, macS := outbuf(in, 8), outbuf(in, 8)
 	err := milenage.F1(exact(in, "opc"), exact(in, "k"), exact(in, "rand"), exact(in, "sqn"), exact(in, "amf"), macA, macS)
 	return map[string]interface{}{"err": err != nil, "mac_a": hx(macA), "mac_s": hx(macS)}
 }
 
 func milF2345(in map[string]interface{}) map[string]interface{} {
-	res, ck, ik, ak, aks := make([]byte, 8), make([]byte, 16), make([]byte, 16), make([]byte, 6), make([]byte, 6)
+	res, ck, ik, ak, aks := outbuf(in, 8), outbuf(in, 16), outbuf(in, 16), outbuf(in, 6), outbuf(in, 6)
 	err := milenage.F2345(exact(in, "opc"), exact(in, "k"), exact(in, "rand"), res, ck, ik, ak, aks)
 	return map[string]interface{}{"err": err != nil, "res": hx(res), "ck": hx(ck), "ik": hx(ik), "ak": hx(ak), "akstar": hx(aks)}
 }
 
 func milOPC(in map[string]interface{}) map[string]interface{} {
 	opc, err := milenage.GenerateOPC(exact(in, "k"), exact(in, "op"))
-	return map[string]interface{}{"err": err != nil, "opc": hx(opc)}
+	out := map[string]interface{}{"err": err != nil, "opc": hx(opc)}
+	retain(out, "opc", opc)
+	return out
 }
 
 func milGenerate(in map[string]interface{}) map[string]interface{} {
-	autn, ik, ck, ak, res := make([]byte, 16), make([]byte, 16), make([]byte, 16), make([]byte, 6), make([]byte, 8)
+	autn, ik, ck, ak, res := outbuf(in, 16), outbuf(in, 16), outbuf(in, 16), outbuf(in, 6), outbuf(in, 8)
 	resLen := uint(num(in, "res_len"))
 	milenage.MilenageGenerate(exact(in, "opc"), exact(in, "amf"), exact(in, "k"), exact(in, "sqn"), exact(in, "rand"),
 		autn, ik, ck, ak, res, &resLen)
@@ -62,7 +105,7 @@ func milGenerate(in map[string]interface{}) map[string]interface{} {
 }
 
 func milCheck(in map[string]interface{}) map[string]interface{} {
-	ik, ck, res, auts := make([]byte, 16), make([]byte, 16), make([]byte, 8), make([]byte, 14)
+	ik, ck, res, auts := outbuf(in, 16), outbuf(in, 16), outbuf(in, 8), outbuf(in, 14)
 	resLen := uint(num(in, "res_len"))
 	rc := milenage.Milenage_check(exact(in, "opc"), exact(in, "k"), exact(in, "sqn"), exact(in, "rand"), exact(in, "autn"),
 		ik, ck, res, &resLen, auts)
@@ -70,7 +113,7 @@ func milCheck(in map[string]interface{}) map[string]interface{} {
 }
 
 func milAuts(in map[string]interface{}) map[string]interface{} {
-	sqn := make([]byte, 6)
+	sqn := outbuf(in, 6)
 	rc := milenage.Milenage_auts(exact(in, "opc"), exact(in, "k"), exact(in, "rand"), exact(in, "auts"), sqn)
 	return map[string]interface{}{"rc": rc, "sqn": hx(sqn)}
 }
@@ -181,7 +224,36 @@ func init() {
 		if !ok {
 			return map[string]interface{}{"harness_error": "unknown fn"}
 		}
-		return f(in)
+		handed = nil
+		out := f(in)
+		checkInputs(out)
+		// the same call with output buffers pre-filled with 0xa5: every octet is either written (same in both runs) or left
+		// alone (00 in the first, a5 in the second)
+		in2 := map[string]interface{}{}
+		for k, v := range in {
+			in2[k] = v
+		}
+		in2["dirty_out"] = true
+		out2 := f(in2)
+		handed = nil
+		dep := []string{}
+		for k, v := range out {
+			a, ok1 := v.(string)
+			b, ok2 := out2[k].(string)
+			if !ok1 || !ok2 || len(a) != len(b) || k == "prev_now" {
+				continue
+			}
+			for i := 0; i+1 < len(a); i += 2 {
+				if a[i:i+2] != b[i:i+2] && !(a[i:i+2] == "00" && b[i:i+2] == "a5") {
+					dep = append(dep, k)
+					break
+				}
+			}
+		}
+		if len(dep) > 0 {
+			out["depends_on_buffer_contents"] = dep
+		}
+		return out
 	}
 	lineCmds["derive"] = derive
 	lineCmds["wmnsk"] = wmnsk
